@@ -34,6 +34,22 @@ pub struct Prop {
     pub handles_foreign_panics: bool,
 }
 
+/// tool sub-runs of the thorough tier: (property, Miri?, fuzz target, valgrind?)
+pub fn tools_for(id: &str) -> (bool, Option<&'static str>, bool) {
+    match id {
+        "C01" => (true, Some("parse"), false),
+        "C05" => (false, Some("framing"), false),
+        "C06" => (true, None, false),
+        "C11" => (false, Some("reserialise"), false),
+        "C12" => (true, Some("observe"), false),
+        "C13" => (true, None, false),
+        "C14" => (false, None, true),
+        "C16" => (true, None, false),
+        "C20" => (true, None, false),
+        _ => (false, None, false),
+    }
+}
+
 pub static PROPS: &[Prop] = &[
     Prop { id: "C01", run: c01::run, meta: c01::meta, single_process: false, budget_quick_s: 120, budget_thorough_s: 900, handles_foreign_panics: false },
     Prop { id: "C02", run: c02::run, meta: c02::meta, single_process: false, budget_quick_s: 120, budget_thorough_s: 900, handles_foreign_panics: false },
